@@ -6,7 +6,7 @@ the `Angle(23, 26, 21.448)` constant, amplitude bounds for the nutation series.
 -/
 noncomputable section
 namespace Pymeeus.Refine.SunEarth
-open Pymeeus Pymeeus.PR Pymeeus.GenR Pymeeus.Refine.Vsop
+open Pymeeus Pymeeus.PR Pymeeus.GenR Pymeeus.GenR.Helio Pymeeus.Refine.Vsop
 
 /-! ### ranges of the corrected positions (used by C07 and C08) -/
 
